@@ -611,3 +611,441 @@ Proof.
   - rewrite map_length. apply Forall2_len in HF. lia.
   - exact F4.
 Qed.
+
+(* ------------------------------------------------------------------ dictionaries *)
+Definition erased_flags : sflags := mkF false false true false false.
+
+Definition erase_items (k : Z) (items : list (Z * (sflags * node))) : list (Z * (sflags * node)) :=
+  match get k items with
+  | Some (f, c) =>
+      if f_live f then
+        put k (if f_published f then
+                 if f_added f then mkF false false (f_removed f) false false
+                 else mkF false (f_added f) true false false
+               else mkF false (f_added f) (f_removed f) false false, c) items
+      else items
+  | None => items
+  end.
+
+Lemma dict_erase_items k m v items : dict_erase k (NDict m v items) = NDict true true (erase_items k items).
+Proof.
+  unfold dict_erase, erase_items. destruct (get k items) as [[f c]|]; [|reflexivity].
+  destruct (f_live f); reflexivity.
+Qed.
+
+Lemma fold_erase_node rm : forall m v items,
+  fold_left (fun s k => dict_erase k s) rm (NDict m v items) =
+  NDict (m || negb (is_nil rm)) (v || negb (is_nil rm)) (fold_left (fun it k => erase_items k it) rm items).
+Proof.
+  induction rm as [|x r IH]; intros m v items; cbn [fold_left is_nil negb].
+  - rewrite !orb_false_r. reflexivity.
+  - rewrite dict_erase_items, IH. cbn [orb]. rewrite !orb_true_r. reflexivity.
+Qed.
+
+Lemma fold_erase_get rm : forall items, ksorted items -> NoDup rm ->
+  (forall k, In k rm -> exists c, get k items = Some (clean_flags, c)) ->
+  ksorted (fold_left (fun it k => erase_items k it) rm items) /\
+  forall j, get j (fold_left (fun it k => erase_items k it) rm items) =
+            if mem j rm then match get j items with Some (_, c) => Some (erased_flags, c) | None => None end
+            else get j items.
+Proof.
+  induction rm as [|x r IH]; intros items Hs Hnd Hin; cbn [fold_left mem].
+  - split; [exact Hs|reflexivity].
+  - inversion Hnd as [|? ? Hnotin Hnd']; subst.
+    destruct (Hin x (or_introl eq_refl)) as [cx Hx].
+    assert (He : erase_items x items = put x (erased_flags, cx) items).
+    { unfold erase_items. rewrite Hx. reflexivity. }
+    rewrite He.
+    assert (Hs' : ksorted (put x (erased_flags, cx) items)) by (apply ksorted_put, Hs).
+    assert (Hin' : forall k, In k r -> exists c, get k (put x (erased_flags, cx) items) = Some (clean_flags, c)).
+    { intros k Hk. rewrite get_put. destruct (k =? x) eqn:E.
+      - apply Z.eqb_eq in E; subst k. contradiction.
+      - apply Hin. right; exact Hk. }
+    destruct (IH _ Hs' Hnd' Hin') as [I1 I2]. split; [exact I1|].
+    intros j. rewrite I2, get_put.
+    destruct (j =? x) eqn:E.
+    + apply Z.eqb_eq in E; subst j. rewrite Hx. cbn [orb].
+      destruct (mem x r) eqn:Em; [|reflexivity]. apply mem_In in Em. contradiction.
+    + cbn [orb]. reflexivity.
+Qed.
+
+Definition at_items (e : shape) (k : Z) (items : list (Z * (sflags * node))) : list (Z * (sflags * node)) :=
+  match get k items with
+  | Some (f, c) =>
+      if f_live f then items
+      else put k (if f_removed f then mkF true (f_added f) false (f_modified f) true
+                  else if nvalid c then mkF true true false (f_modified f) true
+                  else mkF true (f_added f) false (f_modified f) (f_published f), c) items
+  | None => put k (flags0, fresh e) items
+  end.
+
+(* the two situations apply_delta meets on a clean, erased dictionary: an untouched clean slot, or no slot *)
+Lemma dict_child_clean e k g m v items c0 :
+  get k items = Some (clean_flags, c0) -> nmod c0 = false -> nmod (g c0) = true -> nvalid (g c0) = true ->
+  dict_child e k g (NDict m v items) = NDict true true (put k (mkF true false false true true, g c0) items).
+Proof.
+  intros Hg Hm0 Hm Hv. unfold dict_child, dict_at. rewrite Hg. cbn [f_live clean_flags].
+  rewrite Hg. rewrite Hm0, Hm. cbn [negb andb]. unfold slot_child_modified. rewrite Hv. reflexivity.
+Qed.
+
+Lemma put_put {A} k (v w : A) l : put k v (put k w l) = put k v l.
+Proof.
+  induction l as [|[x u] r IH]; cbn [put].
+  - rewrite Z.ltb_irrefl, Z.eqb_refl. reflexivity.
+  - destruct (k <? x) eqn:E1; cbn [put].
+    + rewrite Z.ltb_irrefl, Z.eqb_refl. reflexivity.
+    + destruct (k =? x) eqn:E2; cbn [put].
+      * rewrite Z.ltb_irrefl, Z.eqb_refl. reflexivity.
+      * rewrite E1, E2. f_equal. exact IH.
+Qed.
+
+Lemma dict_child_new e k g m v items :
+  get k items = None -> nmod (g (fresh e)) = true -> nvalid (g (fresh e)) = true -> nmod (fresh e) = false ->
+  dict_child e k g (NDict m v items) = NDict true true (put k (mkF true true false true true, g (fresh e)) items).
+Proof.
+  intros Hg Hm Hv Hm0. unfold dict_child, dict_at. rewrite Hg.
+  rewrite get_put, Z.eqb_refl. rewrite Hm0, Hm. cbn [negb andb]. unfold slot_child_modified. rewrite Hv.
+  cbn [f_published flags0 f_removed]. rewrite put_put. reflexivity.
+Qed.
+
+Lemma fresh_nmod e : nmod (fresh e) = false.
+Proof. destruct e; reflexivity. Qed.
+
+Definition child_put (e : shape) (items : list (Z * (sflags * node))) (kd : Z * delta) :=
+  match get (fst kd) items with
+  | Some (_, c0) => put (fst kd) (mkF true false false true true, apply e c0 (snd kd)) items
+  | None => put (fst kd) (mkF true true false true true, apply e (fresh e) (snd kd)) items
+  end.
+
+Definition child_ready (e : shape) (items : list (Z * (sflags * node))) (kd : Z * delta) : Prop :=
+  match get (fst kd) items with
+  | Some (f, c0) => f = clean_flags /\ nmod c0 = false /\
+                    nmod (apply e c0 (snd kd)) = true /\ nvalid (apply e c0 (snd kd)) = true
+  | None => nmod (apply e (fresh e) (snd kd)) = true /\ nvalid (apply e (fresh e) (snd kd)) = true
+  end.
+
+Lemma fold_child e md : forall items m v, ksorted items -> NoDup (map fst md) ->
+  Forall (child_ready e items) md ->
+  fold_left (fun s kd => dict_child e (fst kd) (fun c => apply e c (snd kd)) s) md (NDict m v items) =
+    NDict (m || negb (is_nil md)) (v || negb (is_nil md)) (fold_left (child_put e) md items) /\
+  ksorted (fold_left (child_put e) md items) /\
+  forall j, get j (fold_left (child_put e) md items) =
+            match get j md with
+            | Some cd => match get j items with
+                         | Some (_, c0) => Some (mkF true false false true true, apply e c0 cd)
+                         | None => Some (mkF true true false true true, apply e (fresh e) cd)
+                         end
+            | None => get j items
+            end.
+Proof.
+  induction md as [|[x cd] r IH]; intros items m v Hs Hnd HF; cbn [fold_left is_nil negb].
+  - rewrite !orb_false_r. split; [reflexivity|]. split; [exact Hs|]. reflexivity.
+  - inversion Hnd as [|? ? Hnotin Hnd']; subst. inversion HF as [|? ? Hx HF']; subst.
+    cbn [map fst] in Hnotin.
+    assert (Hstep : dict_child e x (fun c => apply e c cd) (NDict m v items) = NDict true true (child_put e items (x, cd))).
+    { unfold child_ready in Hx. unfold child_put. cbn [fst snd] in Hx |- *.
+      destruct (get x items) as [[f c0]|] eqn:Eg.
+      - destruct Hx as (-> & Hm0 & Hm & Hv).
+        apply (dict_child_clean e x (fun c => apply e c cd) m v items c0); assumption.
+      - destruct Hx as (Hm & Hv).
+        apply (dict_child_new e x (fun c => apply e c cd) m v items); try assumption. apply fresh_nmod. }
+    cbn [fst snd]. rewrite Hstep.
+    assert (Hs' : ksorted (child_put e items (x, cd))).
+    { unfold child_put. cbn [fst snd]. destruct (get x items) as [[f c0]|]; apply ksorted_put, Hs. }
+    assert (Hget' : forall k, k <> x -> get k (child_put e items (x, cd)) = get k items).
+    { intros k Hk. unfold child_put. cbn [fst snd].
+      destruct (get x items) as [[f c0]|]; rewrite get_put; destruct (k =? x) eqn:E; try reflexivity;
+        apply Z.eqb_eq in E; contradiction. }
+    assert (HF'' : Forall (child_ready e (child_put e items (x, cd))) r).
+    { apply Forall_forall. intros [k d] Hin. rewrite Forall_forall in HF'. specialize (HF' _ Hin).
+      unfold child_ready in *. cbn [fst snd] in *. rewrite Hget'; [exact HF'|].
+      intros ->. apply Hnotin. apply in_map_iff. exists (x, d). split; [reflexivity|exact Hin]. }
+    destruct (IH _ true true Hs' Hnd' HF'') as (I1 & I2 & I3).
+    rewrite I1. cbn [orb]. rewrite !orb_true_r. split; [reflexivity|]. split; [exact I2|].
+    intros j. rewrite I3. cbn [get].
+    destruct (j =? x) eqn:E.
+    + apply Z.eqb_eq in E; subst j.
+      assert (Hnone : get x r = None).
+      { destruct (get x r) eqn:Eg; [|reflexivity]. apply get_In in Eg. exfalso. apply Hnotin.
+        apply in_map_iff. exists (x, d). split; [reflexivity|exact Eg]. }
+      rewrite Hnone. unfold child_put. cbn [fst snd].
+      destruct (get x items) as [[f c0]|]; rewrite get_put, Z.eqb_refl; reflexivity.
+    + rewrite Hget' by (apply Z.eqb_neq, E). reflexivity.
+Qed.
+
+Definition live_mod (kv : Z * (sflags * node)) : bool :=
+  f_live (fst (snd kv)) && f_modified (fst (snd kv)) && nvalid (snd (snd kv)).
+Definition is_removed (kv : Z * (sflags * node)) : bool := f_removed (fst (snd kv)).
+Definition rm_keys (items : list (Z * (sflags * node))) : list Z := map fst (filter is_removed items).
+Definition md_of (e : shape) (items : list (Z * (sflags * node))) : list (Z * delta) :=
+  fm live_mod (fun kv => capture e (snd (snd kv))) items.
+Definition commit_items (e : shape) (items : list (Z * (sflags * node))) :=
+  fm slot_live (fun kv => (clear_flags (fst (snd kv)), commit e (snd (snd kv)))) items.
+
+Lemma capture_tsd e m v items : capture (TSD e) (NDict m v items) = DDict (rm_keys items) (md_of e items).
+Proof. reflexivity. Qed.
+Lemma commit_tsd e m v items : commit (TSD e) (NDict m v items) = NDict false v (commit_items e items).
+Proof. reflexivity. Qed.
+
+Lemma mem_keys_filter_get {A} (p : Z * A -> bool) l j : ksorted l ->
+  mem j (keys (filter p l)) = match get j l with Some v => p (j, v) | None => false end.
+Proof.
+  intros Hs. rewrite <- (keys_fm p (fun _ => tt)). rewrite <- has_mem. unfold has.
+  rewrite get_fm by exact Hs. destruct (get j l) as [v|]; [|reflexivity]. destruct (p (j, v)); reflexivity.
+Qed.
+
+Lemma sorted_keys_filter {A} (p : Z * A -> bool) l : ksorted l -> sorted (keys (filter p l)).
+Proof. intros H. apply (ksorted_filter p l H). Qed.
+
+(* the slot relation, pointwise *)
+Lemma tick_slot_at e items0 items j f c :
+  Forall (fun kv => slot_tick (tick e) (fresh e) (get (fst kv) items0) (fst (snd kv)) (snd (snd kv))) items ->
+  get j items = Some (f, c) -> slot_tick (tick e) (fresh e) (get j items0) f c.
+Proof. intros HT Hg. apply (Forall_get _ _ _ _ HT Hg). Qed.
+
+Section DictCase.
+  Variable e : shape.
+  Hypothesis He : Recreates e.
+  Hypothesis Hfresh : good e (fresh e).
+  Variables items0 items : list (Z * (sflags * node)).
+  Hypothesis Hs0 : ksorted items0.
+  Hypothesis HG0 : Forall (fun kv => fst (snd kv) = clean_flags /\ nvalid (snd (snd kv)) = true /\ good e (snd (snd kv))) items0.
+  Hypothesis Hs : ksorted items.
+  Hypothesis HT : Forall (fun kv => slot_tick (tick e) (fresh e) (get (fst kv) items0) (fst (snd kv)) (snd (snd kv))) items.
+  Hypothesis HH : Forall (fun kv => has (fst kv) items = true) items0.
+
+  Let rm := rm_keys items.
+  Let md := md_of e items.
+  Let items1 := fold_left (fun it k => erase_items k it) rm items0.
+  Let items2 := fold_left (child_put e) md items1.
+
+  Lemma pre_slot j f0 c0 : get j items0 = Some (f0, c0) -> f0 = clean_flags /\ nvalid c0 = true /\ good e c0.
+  Proof. intros Hg. apply (Forall_get _ _ _ _ HG0 Hg). Qed.
+
+  Lemma pre_has j fc : get j items0 = Some fc -> exists f c, get j items = Some (f, c).
+  Proof.
+    intros Hg. pose proof (Forall_get _ _ _ _ HH Hg) as Hh. cbn in Hh.
+    apply has_get_some in Hh. destruct Hh as [[f c] Hh]. eauto.
+  Qed.
+
+  Lemma mem_rm j : mem j rm = match get j items with Some (f, _) => f_removed f | None => false end.
+  Proof.
+    unfold rm, rm_keys. change (map fst (filter is_removed items)) with (keys (filter is_removed items)).
+    rewrite mem_keys_filter_get by exact Hs. destruct (get j items) as [[f c]|]; reflexivity.
+  Qed.
+
+  Lemma rm_in_pre k : In k rm -> exists c, get k items0 = Some (clean_flags, c).
+  Proof.
+    intros Hin. apply mem_In in Hin. rewrite mem_rm in Hin.
+    destruct (get k items) as [[f c]|] eqn:Eg; [|discriminate].
+    pose proof (tick_slot_at _ _ _ _ _ _ HT Eg) as St. unfold slot_tick in St.
+    destruct (get k items0) as [[f0 c0]|] eqn:E0.
+    - destruct (pre_slot _ _ _ E0) as (-> & _). eauto.
+    - destruct (f_live f); [destruct St as (Hr & _)|]; congruence.
+  Qed.
+
+  Lemma rm_nodup : NoDup rm.
+  Proof. apply sorted_NoDup. apply (sorted_keys_filter is_removed items Hs). Qed.
+
+  Lemma items1_facts : ksorted items1 /\
+    forall j, get j items1 = if mem j rm then match get j items0 with Some (_, c) => Some (erased_flags, c) | None => None end
+                             else get j items0.
+  Proof. apply fold_erase_get; [exact Hs0|exact rm_nodup|exact rm_in_pre]. Qed.
+
+  Lemma get_md j : get j md = match get j items with
+                              | Some (f, c) => if f_live f && f_modified f && nvalid c then Some (capture e c) else None
+                              | None => None end.
+  Proof.
+    unfold md, md_of. rewrite get_fm by exact Hs. destruct (get j items) as [[f c]|]; reflexivity.
+  Qed.
+
+  (* a ticking child is valid and re-created *)
+  Lemma child_recreated c0 c : good e c0 -> tick e c0 c ->
+    nmod (apply e c0 (capture e c)) = true /\ nvalid (apply e c0 (capture e c)) = true /\ nvalid c = true /\
+    commit e (apply e c0 (capture e c)) = commit e c /\ capture e (apply e c0 (capture e c)) = capture e c /\
+    good e (commit e c).
+  Proof. intros Hg Ht. destruct (He c0 c Hg Ht) as (A & B & _ & D & E & F & G). auto 10. Qed.
+
+  Lemma md_ready : Forall (child_ready e items1) md.
+  Proof.
+    apply Forall_forall. intros [k cd] Hin. unfold child_ready. cbn [fst snd].
+    assert (Hk : get k md = Some cd).
+    { apply In_get; [apply ksorted_fm, Hs|exact Hin]. }
+    rewrite get_md in Hk. destruct (get k items) as [[f c]|] eqn:Eg; [|discriminate].
+    destruct (f_live f) eqn:El; [|discriminate]. destruct (f_modified f) eqn:Em; [|discriminate].
+    destruct (nvalid c) eqn:Ev; [|discriminate]. injection Hk as <-.
+    pose proof (tick_slot_at _ _ _ _ _ _ HT Eg) as St. unfold slot_tick in St. rewrite El in St.
+    destruct items1_facts as [_ H1]. rewrite H1, mem_rm, Eg.
+    destruct (get k items0) as [[f0 c0]|] eqn:E0.
+    - destruct St as (Hr & Hp & Htk). rewrite Em in Htk. rewrite Hr.
+      destruct (pre_slot _ _ _ E0) as (-> & Hv0 & Hg0).
+      destruct (child_recreated c0 c Hg0 Htk) as (A & B & _).
+      repeat split; try assumption. apply (good_nmod _ _ Hg0).
+    - destruct St as (Hr & _ & _ & Htk). rewrite Hr.
+      destruct (child_recreated (fresh e) c Hfresh Htk) as (A & B & _). split; assumption.
+  Qed.
+
+  Lemma md_nodup : NoDup (map fst md).
+  Proof.
+    change (map fst md) with (keys md). apply sorted_NoDup. apply (ksorted_fm live_mod _ items Hs).
+  Qed.
+
+  Lemma items2_facts : ksorted items2 /\
+    forall j, get j items2 =
+      match get j md with
+      | Some cd => match get j items1 with
+                   | Some (_, c0) => Some (mkF true false false true true, apply e c0 cd)
+                   | None => Some (mkF true true false true true, apply e (fresh e) cd)
+                   end
+      | None => get j items1
+      end.
+  Proof.
+    destruct items1_facts as [Hs1 _].
+    destruct (fold_child e md items1 false false Hs1 md_nodup md_ready) as (_ & A & B). split; assumption.
+  Qed.
+
+  (* the heart: slot by slot, the re-created dictionary shows what the ticking one shows *)
+  Lemma slot_views j :
+    match get j items2 with Some v => if slot_live (j, v) then Some (clear_flags (fst v), commit e (snd v)) else None | None => None end =
+    match get j items with Some v => if slot_live (j, v) then Some (clear_flags (fst v), commit e (snd v)) else None | None => None end /\
+    match get j items2 with Some v => if is_removed (j, v) then Some tt else None | None => None end =
+    match get j items with Some v => if is_removed (j, v) then Some tt else None | None => None end /\
+    match get j items2 with Some v => if live_mod (j, v) then Some (capture e (snd v)) else None | None => None end =
+    match get j items with Some v => if live_mod (j, v) then Some (capture e (snd v)) else None | None => None end /\
+    (forall f c, get j items = Some (f, c) -> f_live f = true ->
+       clear_flags f = clean_flags /\ nvalid (commit e c) = true /\ good e (commit e c)).
+  Proof.
+    destruct items2_facts as [_ H2]. destruct items1_facts as [_ H1].
+    rewrite H2, get_md, H1, mem_rm.
+    unfold slot_live, is_removed, live_mod. cbn [fst snd].
+    destruct (get j items) as [[f c]|] eqn:Eg.
+    - pose proof (tick_slot_at _ _ _ _ _ _ HT Eg) as St. unfold slot_tick in St.
+      destruct (get j items0) as [[f0 c0]|] eqn:E0.
+      + destruct (pre_slot _ _ _ E0) as (-> & Hv0 & Hg0).
+        destruct (f_live f) eqn:El.
+        * destruct St as (Hr & Hp & Htk).
+          destruct (f_modified f) eqn:Em.
+          -- destruct (child_recreated c0 c Hg0 Htk) as (A & B & C & D & E & F).
+             rewrite ?El, ?Em, ?Hr, ?C. cbn [andb fst snd f_live f_removed f_modified].
+             rewrite ?El, ?Em, ?Hr, ?C, ?A, ?B, ?D, ?E. cbn [andb].
+             unfold clear_flags. cbn [f_published]. rewrite Hp.
+             split; [reflexivity|]. split; [reflexivity|]. split; [reflexivity|].
+             intros f' c' Heq _. injection Heq as <- <-. rewrite nvalid_commit.
+             split; [unfold clear_flags; rewrite Hp; reflexivity|]. split; assumption.
+          -- subst c. rewrite ?El, ?Em, ?Hr. cbn [andb fst snd clean_flags f_live f_removed f_modified].
+             rewrite ?El, ?Em, ?Hr. cbn [andb].
+             unfold clear_flags. cbn [f_published]. rewrite Hp.
+             split; [reflexivity|]. split; [reflexivity|]. split; [reflexivity|].
+             intros f' c' Heq _. injection Heq as <- <-.
+             rewrite nvalid_commit, (commit_good _ _ Hg0).
+             split; [unfold clear_flags; rewrite Hp; reflexivity|]. split; assumption.
+        * rewrite ?El, ?St. cbn [andb fst snd erased_flags f_live f_removed f_modified].
+          rewrite ?El, ?St. cbn [andb].
+          split; [reflexivity|]. split; [reflexivity|]. split; [reflexivity|].
+          intros f' c' Heq. injection Heq as <- <-. congruence.
+      + destruct (f_live f) eqn:El.
+        * destruct St as (Hr & Hm & Hp & Htk).
+          destruct (child_recreated (fresh e) c Hfresh Htk) as (A & B & C & D & E & F).
+          rewrite ?El, ?Hm, ?Hr, ?C. cbn [andb fst snd f_live f_removed f_modified].
+          rewrite ?El, ?Hm, ?Hr, ?C, ?A, ?B, ?D, ?E. cbn [andb].
+          unfold clear_flags. cbn [f_published]. rewrite Hp.
+          split; [reflexivity|]. split; [reflexivity|]. split; [reflexivity|].
+          intros f' c' Heq _. injection Heq as <- <-. rewrite nvalid_commit.
+          split; [unfold clear_flags; rewrite Hp; reflexivity|]. split; assumption.
+        * rewrite ?El, ?St. cbn [andb fst snd]. rewrite ?El, ?St. cbn [andb].
+          split; [reflexivity|]. split; [reflexivity|]. split; [reflexivity|].
+          intros f' c' Heq. injection Heq as <- <-. congruence.
+    - destruct (get j items0) as [[f0 c0]|] eqn:E0.
+      + destruct (pre_has _ _ E0) as (f & c & Hc). congruence.
+      + split; [reflexivity|]. split; [reflexivity|]. split; [reflexivity|]. intros; discriminate.
+  Qed.
+
+  Lemma tsd_commit_eq : commit_items e items2 = commit_items e items.
+  Proof.
+    destruct items2_facts as [Hs2 _]. apply fm_ext; [exact Hs2|exact Hs|]. intros k. apply (slot_views k).
+  Qed.
+
+  Lemma tsd_rm_eq : rm_keys items2 = rm_keys items.
+  Proof.
+    destruct items2_facts as [Hs2 _]. unfold rm_keys.
+    change (map fst (filter is_removed ?l)) with (keys (filter is_removed l)).
+    rewrite <- !(keys_fm is_removed (fun _ => tt)). f_equal.
+    apply fm_ext; [exact Hs2|exact Hs|]. intros k. apply (slot_views k).
+  Qed.
+
+  Lemma tsd_md_eq : md_of e items2 = md_of e items.
+  Proof.
+    destruct items2_facts as [Hs2 _]. apply fm_ext; [exact Hs2|exact Hs|]. intros k. apply (slot_views k).
+  Qed.
+
+  Lemma tsd_good_commit : ksorted (commit_items e items) /\
+    Forall (fun kv => fst (snd kv) = clean_flags /\ nvalid (snd (snd kv)) = true /\ good e (snd (snd kv))) (commit_items e items).
+  Proof.
+    split; [apply ksorted_fm, Hs|]. apply Forall_forall. intros [k [f c]] Hin.
+    apply In_get in Hin; [|apply ksorted_fm, Hs]. unfold commit_items in Hin. rewrite get_fm in Hin by exact Hs.
+    destruct (get k items) as [[f' c']|] eqn:Eg; [|discriminate]. unfold slot_live in Hin. cbn [fst snd] in Hin.
+    destruct (f_live f') eqn:El; [|discriminate]. injection Hin as <- <-.
+    destruct (slot_views k) as (_ & _ & _ & H). cbn [fst snd]. apply (H f' c' Eg El).
+  Qed.
+End DictCase.
+
+Lemma recreates_tsd e : good e (fresh e) -> Recreates e -> Recreates (TSD e).
+Proof.
+  intros Hfresh He pre live Hg Ht.
+  destruct pre as [| | |m0 v0 items0|]; try contradiction. destruct live as [| | |m v items|]; try contradiction.
+  destruct Hg as (-> & Hs0 & HG0). destruct Ht as (-> & -> & Hs & HT & HH & Heff).
+  assert (Hmem : forall j, mem j (rm_keys items) = match get j items with Some (f, _) => f_removed f | None => false end)
+    by (intros j; apply mem_rm; assumption).
+  assert (Hgmd : forall j, get j (md_of e items) = match get j items with
+                              | Some (f, c) => if f_live f && f_modified f && nvalid c then Some (capture e c) else None
+                              | None => None end)
+    by (intros j; apply get_md; assumption).
+  assert (Hrmpre : forall k, In k (rm_keys items) -> exists c, get k items0 = Some (clean_flags, c))
+    by (intros k; eapply rm_in_pre; eassumption).
+  assert (Heffb : has_effect (TSD e) (NDict false v0 items0) (DDict (rm_keys items) (md_of e items)) = true).
+  { cbn [has_effect]. destruct (md_of e items) as [|kd mdr] eqn:Emd; [|reflexivity]. cbn [is_nil negb].
+    destruct (rm_keys items) as [|k r] eqn:Erm.
+    - cbn [is_nil negb nvalid]. destruct Heff as [Hex| ->]; [|reflexivity]. exfalso.
+      apply Exists_exists in Hex. destruct Hex as ([k [f c]] & Hin & Hcase). cbn [fst snd] in Hcase.
+      apply In_get in Hin; [|exact Hs].
+      destruct Hcase as [Hr|[Hl Hm]].
+      + specialize (Hmem k). rewrite Hin, Hr in Hmem. discriminate.
+      + pose proof (tick_slot_at _ _ _ _ _ _ HT Hin) as St. unfold slot_tick in St. rewrite Hl in St.
+        assert (Hv : nvalid c = true).
+        { destruct (get k items0) as [[f0 c0]|] eqn:E0.
+          - destruct St as (_ & _ & Htk). rewrite Hm in Htk.
+            assert (Hg0 : good e c0) by (eapply pre_slot; eassumption).
+            eapply child_recreated; eassumption.
+          - destruct St as (_ & _ & _ & Htk). eapply child_recreated; eassumption. }
+        specialize (Hgmd k). rewrite Hin, Hl, Hm, Hv in Hgmd. discriminate.
+    - cbn [is_nil negb existsb]. destruct (Hrmpre k) as [c Hc]; [left; reflexivity|].
+      unfold dict_contains. rewrite Hc. reflexivity. }
+  unfold recreates. rewrite capture_tsd, apply_eq, Heffb, fold_erase_node.
+  assert (Hs1 : ksorted (fold_left (fun it k => erase_items k it) (rm_keys items) items0))
+    by (eapply items1_facts; eassumption).
+  assert (Hnd : NoDup (map fst (md_of e items))) by (apply md_nodup; assumption).
+  assert (Hrdy : Forall (child_ready e (fold_left (fun it k => erase_items k it) (rm_keys items) items0)) (md_of e items))
+    by (eapply md_ready; eassumption).
+  destruct (fold_child e (md_of e items) _ (false || negb (is_nil (rm_keys items))) (v0 || negb (is_nil (rm_keys items)))
+              Hs1 Hnd Hrdy) as (F1 & _ & _).
+  rewrite F1. cbn [dict_touch nmod nvalid]. rewrite !commit_tsd, !capture_tsd.
+  erewrite tsd_commit_eq; try eassumption. erewrite tsd_rm_eq; try eassumption. erewrite tsd_md_eq; try eassumption.
+  assert (HGC : ksorted (commit_items e items) /\
+    Forall (fun kv => fst (snd kv) = clean_flags /\ nvalid (snd (snd kv)) = true /\ good e (snd (snd kv))) (commit_items e items))
+    by (eapply tsd_good_commit with (items0 := items0); eassumption).
+  destruct HGC as [G1 G2]. cbn [good]. repeat split; try reflexivity; assumption.
+Qed.
+
+(* ------------------------------------------------------------------ the round trip, every shape *)
+Theorem recreates_all : forall sh, wf_shape sh -> Recreates sh.
+Proof.
+  induction sh as [| |p m| |e IH|n e IH|fs IH] using shape_ind'; intros Hwf.
+  - intros pre live; apply recreates_ts.
+  - intros pre live; apply recreates_signal.
+  - intros pre live; apply recreates_tsw.
+  - intros pre live; apply recreates_tss.
+  - apply recreates_tsd; [apply good_fresh, Hwf|apply IH, Hwf].
+  - apply recreates_tsl, IH, Hwf.
+  - apply recreates_tsb. apply wf_tsb_forall in Hwf.
+    induction IH as [|f r Hf Hr IHr]; constructor; inversion Hwf; subst; auto.
+Qed.
